@@ -70,6 +70,13 @@ CHECKS = {
         note="Grid quadrature: values between grid points are not explored. The operations are assumed to obtain randomness through uniform draws consumed in call order (QuantileRNG).",
         technique="exhaustive product-grid enumeration of generator answers on the implementation with geometric invariants and an inversion-closure multiset oracle",
     ),
+    "C15": dict(
+        category="model_checking",
+        text="Every sequence of <= 3 run calls with lengths in {0,1,2,3} and every assignment of run/srun/irun(fully iterated) to the calls is executed on real Canonical, GrandCanonical and ForceBias simulations (real PCG64, fixed seeds) carrying six recording observers (intervals 1,2,3,-1,-2,-4), a logger and a trajectory. Each history is compared (a) with a reference model of the observer schedule, header and per-call step counts and (b) differentially - atoms bitwise, step counter, log text, trajectory text, observer call logs - with a single run(sum).",
+        design_ref="4-C15",
+        note="Observers are independent, so all intervals are attached at once. ForceBias has no srun. FixCom is not combined with the trajectory observer (ASE's extxyz writer fails on it).",
+        technique="exhaustive enumeration of run-splitting histories on the implementation against a schedule model and a single-run differential oracle",
+    ),
 }
 
 NA_REASON = "check not built yet in this session (design in DESIGN.md); no claim is made"
